@@ -113,7 +113,9 @@ pub fn posthoc(pre: &World, post: &World, res: &mut EvalOut) -> PostHoc {
     }
 
     // ---------------- C03: skipped => up to date
-    if !tainted {
+    // (also in a world with flaky Ephemerals: the predicate speaks about records and about what
+    // the jobs actually consumed and reported, not about what they ought to have computed)
+    {
         for &s in act.iter() {
             let id = post.id(s);
             if useless.contains(&s) {
@@ -129,12 +131,6 @@ pub fn posthoc(pre: &World, post: &World, res: &mut EvalOut) -> PostHoc {
                         push(&mut v, "C03", format!("skipped-but-{}", why), format!("{} ({:?}) final state {}", id, post.kind(s), res.final_states.get(&id).cloned().unwrap_or_default()));
                     }
                 }
-            }
-        }
-    } else {
-        for (id, d) in res.disp.iter() {
-            if *d == Disp::Skipped {
-                ph.validly_skipped.insert(id.clone());
             }
         }
     }
